@@ -8,6 +8,7 @@ package main
 import (
 	"fmt"
 	"go/token"
+	"go/types"
 	"math"
 
 	"golang.org/x/tools/go/ssa"
@@ -69,7 +70,11 @@ func linOf(v ssa.Value) lin {
 			return lenOf(x.Call.Args[0])
 		}
 	case *ssa.Convert:
-		// int <-> int conversions of the same width are not tracked; keep the value itself
+		// a conversion between signed integer types that cannot change the value (same kind,
+		// or to a type at least as wide on every architecture) is transparent
+		if valuePreservingIntConv(x) {
+			return linOf(x.X)
+		}
 	case *ssa.UnOp:
 		if c := canonLoad(v); c != v {
 			return linOf(c)
@@ -272,6 +277,18 @@ func (pv *prover) le(a, b lin, facts []Atom, depth int) bool {
 			zero := lin{off: 0}
 			if a.off <= b.off && pv.le(zero, linOf(bo.X), facts, depth+1) && pv.le(zero, linOf(bo.Y), facts, depth+1) {
 				return true
+			}
+		}
+	}
+	// r = rand.Intn(n): r + oa <= b if n - 1 + oa <= b
+	if !a.isLen && depth < 6 {
+		if call, ok := a.base.(*ssa.Call); ok {
+			if n := randBelow(call); n != nil {
+				ln := linOf(n)
+				ln.off += a.off - 1
+				if pv.le(ln, b, facts, depth+1) {
+					return true
+				}
 			}
 		}
 	}
@@ -495,7 +512,22 @@ func intrinsicNonNeg(b lin) bool {
 			}
 		}
 	}
+	if call, ok := b.base.(*ssa.Call); ok && randBelow(call) != nil {
+		return true
+	}
 	return false
+}
+
+// randBelow: the call is math/rand's Intn/Int31n/Int63n (package function or method): its
+// result r satisfies 0 <= r < n; returns n.
+func randBelow(call *ssa.Call) ssa.Value {
+	switch calleeName(call.Common()) {
+	case "math/rand.Intn", "math/rand.Int31n", "math/rand.Int63n", "math/rand/v2.IntN", "math/rand/v2.Int64N", "math/rand/v2.Int32N", "math/rand/v2.N":
+		return call.Common().Args[0]
+	case "(*math/rand.Rand).Intn", "(*math/rand.Rand).Int31n", "(*math/rand.Rand).Int63n", "(*math/rand/v2.Rand).IntN":
+		return call.Common().Args[1]
+	}
+	return nil
 }
 
 // boundsAt returns the facts that hold at instruction ins (its block's dominating guards).
@@ -547,4 +579,36 @@ func (pv *prover) proveIndex(x, idx ssa.Value, at ssa.Instruction) (bool, string
 		return false, fmt.Sprintf("no fact establishes %s < %s", i, ln)
 	}
 	return true, fmt.Sprintf("0 <= %s < %s", i, ln)
+}
+
+// valuePreservingIntConv: signed integer to signed integer of at least the same width on every
+// GOARCH (int is 32 or 64 bits wide).
+func valuePreservingIntConv(cv *ssa.Convert) bool {
+	from, ok1 := cv.X.Type().Underlying().(*types.Basic)
+	to, ok2 := cv.Type().Underlying().(*types.Basic)
+	if !ok1 || !ok2 {
+		return false
+	}
+	// minimal and maximal width of each signed kind
+	width := func(k types.BasicKind) (lo, hi int) {
+		switch k {
+		case types.Int8:
+			return 8, 8
+		case types.Int16:
+			return 16, 16
+		case types.Int32:
+			return 32, 32
+		case types.Int64:
+			return 64, 64
+		case types.Int:
+			return 32, 64
+		}
+		return 0, 0
+	}
+	_, fhi := width(from.Kind())
+	tlo, _ := width(to.Kind())
+	if fhi == 0 || tlo == 0 {
+		return false
+	}
+	return from.Kind() == to.Kind() || fhi <= tlo
 }
